@@ -4,7 +4,10 @@ import importlib.util, os
 from vx.unit import Unit, E
 
 ST = 'src/storage/storages.rs'
-N19 = [('N19', r'((?:self|\w+)(?:\.\w+)+)\.get_unchecked_mut\(', r'vec_get_unchecked_mut(&mut \1, '),
+N19 = [('N10', r'((?:self|\w+)(?:\.\w+)+)\.reserve\(', r'vec_reserve(&mut \1, '),
+       ('N10', r'((?:self|\w+)(?:\.\w+)+)\.capacity\(\)', r'vec_capacity(&\1)'),
+       ('N10', r'((?:self|\w+)(?:\.\w+)+)\.set_len\(', r'vec_set_len(&mut \1, '),
+       ('N19', r'((?:self|\w+)(?:\.\w+)+)\.get_unchecked_mut\(', r'vec_get_unchecked_mut(&mut \1, '),
        ('N19', r'((?:self|\w+)(?:\.\w+)+)\.get_unchecked\(', r'vec_get_unchecked(&\1, ')]
 N8 = [('N8', r"Self::AccessMut<'_>", '&mut T')]
 N6B = [('N6b', r'for \((\w+), (\w+)\) in ([\w\.]+)\.iter_mut\(\)\.enumerate\(\) \{', r'for \1 in 0..\3.len() { let \2 = &mut \3[\1];'),
